@@ -200,16 +200,31 @@ def convert(q, tgt, route):
     return payload(c), label_of(c)
 
 
-def make_conv_case(A, targets, shape):
+def _obtain(ctx, x, A, origin):
+    """the quantity to convert, obtained the way a program might have obtained it: a copied or deep-copied quantity
+    (new Unit object, for deepcopy a new registry) must convert exactly like a freshly built one"""
+    import copy as _copy
+    q = ctx.quantity(x.copy(), A)
+    if origin == "copy":
+        return q.copy()
+    if origin == "deepcopy":
+        return _copy.deepcopy(q)
+    if origin == "unitcopy":
+        return ctx.quantity(x.copy(), q.units.copy(deep=True))
+    return q
+
+
+def make_conv_case(A, targets, shape, origin="fresh"):
     oA = oracle_of(A)
 
     def h(ctx):
         _fresh(ctx)
         x = ctx.reals("x", shape)
         xs = elements(x)
+        q0 = None if origin == "fresh" else _obtain(ctx, x, A, origin)  # conversions never touch their input
         for B in targets:
             oB = oracle_of(B)
-            q = ctx.quantity(x.copy(), A)
+            q = q0 if q0 is not None else _obtain(ctx, x, A, origin)
             want = [(kel(oA, v) - oB[2]) / oB[1] for v in xs]
             bands = [band(oA[1] * v / oB[1], oA[2] / oB[1], oB[2] / oB[1]) for v in xs]
             for route in ROUTES:
@@ -225,7 +240,7 @@ def make_conv_case(A, targets, shape):
                 ctx.require("convert/affine map", ok, route=route, target=B, shape=shape)
                 ctx.observe(f"{B}/{route}", vals)
             ctx.require("convert/input untouched", And(oracle_of(label_of(q) or "") == oA, *[close(v, w, tol=0) for v, w in zip(payload(q), xs)]), target=B)
-    return Case(f"C08/conv/{A}/shape{tagof(shape)}", h, bounds="symbolic: readings", weight=len(targets))
+    return Case(f"C08/conv/{A}/shape{tagof(shape)}" + ("" if origin == "fresh" else "/" + origin), h, bounds="symbolic: readings", weight=len(targets))
 
 
 # --------------------------------------------------------------------------------------------- additive pair table
@@ -623,6 +638,9 @@ def cases(tier, mods):
     for A in units:
         for sh in [(), (2,)]:
             out.append(make_conv_case(A, units, sh))
+        for origin in ("copy", "deepcopy", "unitcopy"):
+            for sh in ([()] if quick else [(), (2,)]):
+                out.append(make_conv_case(A, units, sh, origin))
     # additive + multiplicative pair table
     sp = [((), ()), ((2,), (2,))] if quick else [((), ()), ((2,), (2,)), ((), (2,)), ((2,), ())]
     for A in units:
